@@ -15,6 +15,7 @@ import multiprocessing
 import random
 
 import lib_progress as lp
+import lib_progressfmt as lpf
 
 PROPERTY = "C12"
 
@@ -923,10 +924,12 @@ def run(ctx):
         "ratios (percentage, speed, time_remaining) are compared through exact fractions computed from the real task's raw fields; the real float getters must equal them up to relative 1e-11 (decision), the ceiling of time_remaining up to that slack",
         "description is an opaque id (strings d<n>), user fields a dict f<k> -> int in insertion order",
         "refresh() reads the clock 5 times per visible task on a terminal console with the default columns (model parameter refreshReads, validated by every terminal run) and does nothing otherwise; what it writes is not modelled",
+        "columns / filesize (pf_*): sizes, totals and counts are Python ints (or whole-number floats below 2^50, and for ProgressBar only where width*2*completed < 2^53); int/int and float/float division and ',.1f' / '.0f' formatting are modelled exactly (correctly rounded double, half-even on the binary value) and compared as text; Column.render is called on real Task objects / stubs, not through ProgressColumn.__call__ (its max_refresh cache is not modelled); pf_col cases whose real time_remaining differs from the exact ceiling by float slack are evaluated directly but not compared",
         "threads: one step = code between two yield points (clock read outside the lock / outermost lock acquisition / Event.wait of the track thread); a thread holding the lock is never preempted, so preemption inside a body and inside a source line is not exhibited",
     ]
     quick = ctx.quick
     guard(ctx, "percentage_spec", "grid", lambda: percentages(ctx))
+    lpf.run_fmt(ctx, guard, cfg_str)
     f21_directed(ctx)
     long_history(ctx, 2 if quick else 8)
     for n in range(0, 6 if quick else 12):
@@ -959,7 +962,11 @@ def run(ctx):
         "periods 0..30 s with increments at the pruning boundary) and >1000-sample histories; threads: 2-8 real threads x "
         "1-3 ops under uniform / readers-first / PCT schedules at the read and lock yield points; track: lengths 0..n over "
         "list/generator/range, fresh or existing task, helper thread under random schedules, and `with progress: track()` with "
-        "rich's refresh and track threads (3 threads) on a terminal console; distinct = distinct canonical requests"
+        "rich's refresh and track threads (3 threads) on a terminal console; columns / filesize: bounded-exhaustive grids "
+        "(bases 1000/1024/2/3/10 x 0..9 suffixes x sizes at, below and above every power and at the one-decimal ties; "
+        "timedelta seconds at every field boundary, both signs, the OverflowError edge; bars of width 1/2/3/10/40 x totals x "
+        "counts around every half cell) then seeded random sizes up to 10^40 and random tasks with samples; "
+        "distinct = distinct canonical requests"
         % (3 if quick else 4)
     )
 
@@ -1026,7 +1033,24 @@ MANIFEST = {
     "F21 (rich 9.10.0 as found, clockOutside = true) with fixed_speed_under_same_schedule; task_ids_distinct, "
     "task_ids_never_reused, add_task_id_fresh; elapsed_nonneg (elapsed and recorded finish time are >= 0 unless a stopped "
     "task is reset) with the witness reset_after_stop_negative_elapsed showing that case satisfies every clause of C12; "
-    "track_counts / track_thread_counts (any batching by the helper thread). Tie: the model is run against real rich on an "
+    "track_counts / track_thread_counts (any batching by the helper thread). Added in deepening round 4: speed_window / "
+    "samples_within_window (monotone clock, period >= 0: after any history the deque is sorted and the span speed divides by "
+    "is in (0, speed_estimate_period] - the first pruning loop) and samples_bounded (any clock: never more than 1000+1 "
+    "samples - the second loop); track_finishes_iff (track() without helper thread on a fresh task, any total vs any length: "
+    "total unchanged, completed = length, finished iff at least one element and total <= length); rich/filesize.py and the "
+    "columns are now MODELLED (Model/ProgressFmt.lean): pick_unit_and_suffix, _to_str, decimal, DownloadColumn text, "
+    "TimeRemainingColumn / TimeElapsedColumn text incl. str(timedelta) with its OverflowError branch, the percentage text "
+    "'{task.percentage:>3.0f}', BarColumn's arguments, ProgressBar's complete_halves and drawn cells, TransferSpeedColumn; "
+    "Python's float division and ',.1f' / '.0f' formatting are modelled EXACTLY (rn53 = correctly rounded double of a "
+    "rational, half-even formatting of the binary value), compared as text with no tolerance. Theorems: pick_unit_law + "
+    "pick_unit_unique (unit = base^i, unit <= size < unit*base except at the two ends, and for base >= 2 that index is the "
+    "only one), to_str_unit_law (1 byte / bytes / base^(j+1) <= size < base^(j+2), last suffix unbounded, no suffix raises), "
+    "td_fields_spec (floor divmod fields for every integer, OverflowError iff |days| > 999999999), td_str_hms, "
+    "time_remaining_text_dashes ('-:--:--' iff time_remaining is None), bar_args_clamped, bar_halves_zero_total and "
+    "bar_text_width_partial (a bar is exactly width cells IF complete_halves <= 2*width; that bound through the rounded "
+    "division is not proved, the harness evaluates it on every drawn bar). Not proved about the float layer: rn53/fixedStr "
+    "are validated by correspondence only (pf_fixed / pf_trunc against Python's own a/b formatting incl. ties and 2^53 "
+    "neighbours). Tie: the model is run against real rich on an "
     "injected clock - every history of <=3 (thorough 4) ops over a 26-symbol alphabet, seeded adaptive random histories, "
     ">1000-sample histories, on non-terminal and terminal consoles, compared after every operation on all task fields, the "
     "sample deque, derived values, Progress.finished/_started, number of clock reads and error kind; 2-8 real threads under "
@@ -1040,8 +1064,12 @@ MANIFEST = {
     "ratios are compared as exact fractions computed from the real task's raw fields, the real float getters must match "
     "them to 1e-11 relative. A thread holding the lock is never preempted and preemption inside a source line is not "
     "exhibited: 'no lost update' rests on the checked lock discipline. refresh() is modelled only by the number of clock "
-    "reads it makes (model parameter: 5 per visible task with the default columns on a terminal, 0 otherwise); what it "
-    "writes, custom columns, and rendering errors are not modelled - observed and excluded from terminal runs: "
+    "reads it makes (model parameter: 5 per visible task with the default columns on a terminal, 0 otherwise); what each "
+    "default column computes from a task is modelled and tied separately as pure functions of the task (pf_col, pf_bar, "
+    "pf_td: Column.render on real Task objects; the max_refresh cache of ProgressColumn.__call__, styles, the table layout "
+    "and the pulse animation are not modelled; float inputs only where width*2*completed stays exact in double); what "
+    "refresh() writes to the console, custom columns, and rendering errors inside a live refresh are not modelled - "
+    "observed and excluded from terminal runs: "
     "refresh()/start()/update(refresh=True) raise OverflowError when a task's time_remaining exceeds timedelta's range "
     "(TimeRemainingColumn; e.g. total=2**50 at 0.5 steps/s). description is an opaque id, user fields an int-valued dict. "
     "Outside the statement (decided on the real code, see Props/C12.lean): reset() does not clear stop_time, so elapsed / "
